@@ -1,0 +1,26 @@
+//go:build verif
+
+// Contracts for gzv (contract-based deductive verification, /verif). Comment-only file.
+package sqlc
+
+// C06: every CachedConn of the process shares one single-flight barrier (loads of one key are suppressed across conns),
+// and a write invalidates only after the database write succeeded.
+//@ func NewConn
+//@   property C06
+//@   call New#0: assert arg_barrier == singleFlights && arg_errNotFound == sql.ErrNoRows
+//@ func NewNodeConn
+//@   property C06
+//@   call NewNode#0: assert arg_barrier == singleFlights && arg_errNotFound == sql.ErrNoRows
+
+//@ func (cc CachedConn) ExecCtx
+//@   property C06
+//@   flag callbacks_noheap
+//@   results res, err
+//@   ensures calls(exec) == old(calls(exec)) + 1
+//@   ensures implies(ret(exec, 1) != nil, res == nil && err == ret(exec, 1) && cacheDels == old(cacheDels))
+//@   ensures implies(ret(exec, 1) == nil, res == ret(exec, 0) && cacheDels == old(cacheDels) + 1 && err == cacheDelErr)
+//@   modifies cacheDels, cacheDelErr, calls(exec)
+//@ func (cc CachedConn) DelCacheCtx
+//@   property C06
+//@   ensures cacheDels == old(cacheDels) + 1 && result == cacheDelErr
+//@   modifies cacheDels, cacheDelErr
